@@ -48,6 +48,12 @@ def affine(e):
             for kk, v in b[0].items():
                 d[kk] = d.get(kk, 0) + s * v
             return {kk: v for kk, v in d.items() if v != 0}, a[1] + s * b[1]
+        if op == "Shl":
+            b = affine(e[3])
+            if not b[0] and isinstance(b[1], int) and 0 <= b[1] < 64:
+                a = affine(e[2])
+                m = 1 << b[1]
+                return {kk: v * m for kk, v in a[0].items()}, a[1] * m
         if op == "Mul":
             a, b = affine(e[2]), affine(e[3])
             if not a[0]:
